@@ -30,13 +30,14 @@ import os
 import pickle
 import random
 import shutil
+import threading
 
 from common.coqlit import Err, uncanon
 import pysparkling
 import pysparkling.rdd as rdd_module
 from pysparkling.cache_manager import TimedCacheManager
 from pysparkling.rdd import unit_map
-from sched_pool import SchedPool
+from sched_pool import DEFAULT_QUALNAMES, SchedPool
 
 try:
     import cloudpickle
@@ -156,7 +157,7 @@ def available_backends():
     return sorted(b)
 
 
-def make_context(backend, timed, schedules=(), max_retries=None):
+def make_context(backend, timed, schedules=(), max_retries=None, trace_map=False):
     kw = {}
     if max_retries is not None:
         kw['max_retries'] = max_retries
@@ -164,7 +165,10 @@ def make_context(backend, timed, schedules=(), max_retries=None):
     if timed:
         kw['cache_manager'] = TimedCacheManager(timeout=3600.0)
     if backend in (0, 1):
-        pool = SchedPool(schedules=[list(s) for s in schedules])
+        # trace_map: also gate every element that a map() hands on (the generator of MapF.__call__), so that the tasks
+        # interleave INSIDE the code that consumes their iterator (e.g. while a part file is being written)
+        names = DEFAULT_QUALNAMES + (('MapF.__call__.<locals>.<genexpr>',) if trace_map else ())
+        pool = SchedPool(schedules=[list(s) for s in schedules], qualnames=names)
         kw['pool'] = pool
     elif backend != 2:
         kw['pool'] = _real_pool(backend)
@@ -236,7 +240,7 @@ def observe(backend, timed, parts, stages, jobs):
 def _is_program_case(case):
     """('free' | 'history', backend, timed, spec, schedules): a replayable cross-backend program (judged by the oracle
     alone; the model does not decode it and answers BadCase, which is also what impl returns)."""
-    return isinstance(case, (tuple, list)) and len(case) == 5 and case[0] in ('free', 'history', 'partial', 'closure', 'mutzero')
+    return isinstance(case, (tuple, list)) and len(case) == 5 and case[0] in ('free', 'history', 'partial', 'closure', 'mutzero', 'save')
 
 
 def impl(case):
@@ -726,6 +730,7 @@ def extra_checks(rng, tier, workdir):  # pylint: disable=unused-argument
     more = have + [b for b, m in ((9, cloudpickle), (10, dill)) if m is not None]
     yield from _closure_checks(rng, 2 * n, more)
     yield from _mutzero_checks(rng, n, more)      # (pysparkling has no combineByKey)
+    yield from _save_checks(rng, n, more)
 
 
 FREE_NAMES = ['collect', 'count', 'second-collect', 'coalesce', 'sampleByKey', 'reduce', 'fold', 'aggregate', 'take',
@@ -753,6 +758,8 @@ def _judge_program(case):
             return _judge_closure(backend, spec, sched)
         if which == 'mutzero':
             return _judge_mutzero(backend, spec, sched)
+        if which == 'save':
+            return _judge_save(backend, spec, sched, scratch)
         return _judge_history(backend, timed, spec, sched, scratch)
     finally:
         shutil.rmtree(scratch, ignore_errors=True)
@@ -1394,6 +1401,130 @@ def _mutzero_checks(rng, n, have):
             if o is not None:
                 yield (o[0], o[1], 'replayable: ./check C03 --replay <this file>', case)
                 if o[0].startswith('dummy:'):
+                    break
+
+
+# ---------------------------------------------------------------------------------------------------
+# actions whose RESULT IS A SIDE EFFECT: saveAsTextFile / saveAsPickleFile of a dataset with several partitions, and
+# foreach() filling a structure of the driver.  On the traced pool every element a map() hands on is a grant
+# (trace_map), so the tasks interleave while their part files are being written -- every task has started before any
+# has written; on ThreadPoolExecutor a barrier in the upstream map() makes all tasks fill their buffers together.
+# Oracle: directory listing and per-file content equal the default executor's output and the plain-list meaning.
+def _save_spec(rng):
+    data = [rng.randint(0, 99) for _ in range(rng.choice([2, 3, 5, 8]))]
+    slices = rng.randint(2, 4)
+    return (data, slices, rng.choice(['plain', 'persisted', 'sampled']), rng.choice(['text', 'text', 'pickle', 'foreach']))
+
+
+def _read_tree(path):
+    if os.path.isfile(path):
+        with open(path, 'rb') as f:
+            return [('<single file>', f.read())]
+    out = []
+    for name in sorted(os.listdir(path)):
+        with open(os.path.join(path, name), 'rb') as f:
+            out.append((name, f.read()))
+    return out
+
+
+def _save_program(spec, scratch, barrier_for=None):
+    data, slices, lineage, fmt = spec
+
+    def program(sc):
+        src = sc.parallelize(list(data), slices)
+        layout = [list(p.x()) for p in src.partitions()]
+        r = src
+        if lineage == 'persisted':
+            r = r.persist()
+        elif lineage == 'sampled':
+            r = r.sample(False, 1.0, seed=4)          # keeps every element (random() < 1.0), draws per element
+        if barrier_for:
+            barrier = threading.Barrier(barrier_for, timeout=2)
+            waited = set()
+
+            def label(x):
+                me = threading.get_ident()
+                if me not in waited:                  # once per task: all tasks are inside their consumer
+                    waited.add(me)                    # (filling their buffers) before any of them goes on
+                    try:
+                        barrier.wait()
+                    except threading.BrokenBarrierError:
+                        pass
+                return f'v{x}'
+        else:
+            def label(x):
+                return f'v{x}'
+        r = r.map(label)
+        path = os.path.join(scratch, f'out_{os.getpid()}_{next(_SAVE_SEQ)}')
+        try:
+            if fmt == 'text':
+                r.saveAsTextFile(path)
+                return ('files', [(n, c.decode('utf8')) for n, c in _read_tree(path)], layout)
+            if fmt == 'pickle':
+                r.saveAsPickleFile(path)
+                tree = _read_tree(path)
+                loaded = [(n, pickle.loads(c) if not n.startswith('_') else None) for n, c in tree]
+                return ('pickles', loaded, layout)
+            seen = []
+            r.foreach(seen.append)
+            return ('foreach', sorted(seen), layout)
+        except Exception as e:  # pylint: disable=broad-except
+            return ('raised', type(e).__name__, layout)
+        finally:
+            if os.path.isfile(path):
+                os.remove(path)
+            shutil.rmtree(path, ignore_errors=True)
+    return program
+
+
+def _judge_save(backend, spec, sched, scratch):
+    data, slices, _lineage, fmt = spec
+    want, err = _default_executor(('save', spec), lambda: _save_program(spec, scratch)(make_context(2, 0, max_retries=1)[0]))
+    if err:
+        return ('dummy:save-program-raised', err)
+    got = want
+    bname = BACKEND_NAMES[backend]
+    if backend != 2:
+        try:
+            barrier = min(slices, len(data)) if backend == 3 and slices <= 4 else None
+            got = _save_program(spec, scratch, barrier)(make_context(backend, 0, sched, max_retries=1, trace_map=True)[0])
+        except Exception as e:  # pylint: disable=broad-except
+            return (f'{bname}:save-program-raised:{type(e).__name__}', 'program raised on this backend only')
+    layout = want[2]
+    if fmt == 'text':
+        plain = ('files', [('_SUCCESS', '')] + [(f'part-{i:05d}', ''.join(f'v{x}\n' for x in p)) for i, p in enumerate(layout)])
+    elif fmt == 'pickle':
+        plain = None
+    else:
+        plain = ('foreach', sorted(f'v{x}' for x in data))
+    if fmt == 'foreach' and backend not in (0, 2, 3, 8):
+        return None                  # tasks on copies cannot fill a structure of the driver: nothing to compare
+    if plain is not None and got[:2] != plain:
+        return (f'{bname}:side-effect:{fmt}:differs-from-plain-list-meaning',
+                f'{fmt}: {got[1]!r}; the plain-list meaning is {plain[1]!r}')
+    if fmt == 'pickle' and got[0] == 'pickles':
+        flat = [x for n, part in got[1] if part is not None for x in part]
+        if flat != [f'v{x}' for x in data]:
+            return (f'{bname}:side-effect:pickle:differs-from-plain-list-meaning',
+                    f'the part files hold {got[1]!r}; the data is {[f"v{x}" for x in data]!r}')
+    if got[:2] != want[:2]:
+        return (f'{bname}:side-effect:{fmt}:differs-from-default-executor', f'{got[1]!r} instead of {want[1]!r}')
+    return None
+
+
+def _save_checks(rng, n, have):
+    for _ in range(n):
+        spec = _save_spec(rng)
+        _EXTRA['side_effect_programs'] = _EXTRA.get('side_effect_programs', 0) + 1
+        for b in [2] + have:
+            reps = 3 if b in (0, 1) else 1           # several interleavings on the traced pool
+            for _rep in range(reps):
+                sched = [[rng.randrange(spec[1]) for _ in range(rng.randint(0, 60))] for _ in range(3)] if b in (0, 1) else []
+                case = ('save', b, 0, spec, sched)
+                o = _judge_program(case)
+                _EXTRA['side_effect_backend_runs'] = _EXTRA.get('side_effect_backend_runs', 0) + 1
+                if o is not None:
+                    yield (o[0], o[1], 'replayable: ./check C03 --replay <this file>', case)
                     break
 
 
